@@ -279,7 +279,7 @@ def run(ctx):
 
     def g(inst):
         b = F.method("MemTableSource", "FlowSource", "run")
-        nxs = [c for c in b.find_calls(r"Iterator>::next$") if has_origin(b.origins(c.args[0], transparent=NEXT_TRANSPARENT), None, proj_contains=[".passive_memtables"])]
+        nxs = [c for c in for_headers(b) if has_origin(b.origins(c.args[0], transparent=NEXT_TRANSPARENT), None, proj_contains=[".passive_memtables"])]
         if len(nxs) < 2:
             raise AnchorMissing("loops over config.passive_memtables in MemTableSource::run (%d)" % len(nxs))
         coll = b.find_calls(r"MemTableSource::(collect_rows_from_memtable|push_rows_from_memtable)$")
